@@ -46,6 +46,8 @@ type c09Case struct {
 	Bases   []string `json:"bases,omitempty"`   // hex of base profiles: passed as -base / -diff_base sources
 	Diff    bool     `json:"diff_base,omitempty"`
 	NoPre   bool     `json:"nopre,omitempty"`  // web: skip the child-process preflight (name grid: only strings that loading does not interpret)
+	Binary  bool     `json:"binary,omitempty"` // `pprof <binary> <profile>`: the pprof executable itself is given as the binary
+	Twice   bool     `json:"twice,omitempty"`  // the profile is given twice as a source (merge of two sources)
 	Remote  bool     `json:"remote,omitempty"` // the profile is fetched from an http:// URL (served by the harness) instead of a file
 	Args    []string `json:"args_hex,omitempty"`
 	Env     []string `json:"env,omitempty"`
@@ -206,11 +208,17 @@ func c09Exec(c *Ctx, e *c09Env, id int, cs *c09Case) *c09ProcResult {
 			args = append(args, "-base="+bf)
 		}
 	}
+	if cs.Binary {
+		args = append(args, c.Pprof) // an executable that binutils can open: recognised as the binary override
+	}
 	if u, release := c09ServeProfile(pb); cs.Remote && u != "" {
 		defer release()
 		args = append(args, u)
 	} else {
 		release()
+		args = append(args, pf)
+	}
+	if cs.Twice {
 		args = append(args, pf)
 	}
 	res := &c09ProcResult{cs: cs}
@@ -1114,7 +1122,7 @@ func c09Web(c *Ctx, cs *c09Case) {
 
 func runC09(c *Ctx) {
 	c.Res.Rule = "correspondence (in-process, exported plug-in API): -tagfocus values vs model outcome class; interactive sessions with a scripted UI vs the model's per-line events, output file, active filters and final option values; candidate-binary counts of locateBinaries; command/option tables. " +
-		"Campaign (real pprof binary, one process per case; web handlers through the HTTPServer hook): first a deterministic grid of every output command x every option that changes graph construction or trimming (alone and with call_tree) x two trimming settings on a profile with several calling contexts per function, every name-like profile string (function/system name, file names, label keys and values, sample type/unit/comment) x separator adversaries as prefix, suffix and whole name (CLI and every web endpoint); and every string-valued option x values whose byte and rune lengths straddle the size limits (long ASCII, 2-/3-/4-byte characters, combining marks, invalid UTF-8); then valid profiles with odd strings/ids/addresses/line numbers/0-1-2-character build ids/labels/units and per-column value patterns (one column zero, all zero, only one column non-zero, cancelling +v/-v, MinInt64/MaxInt64, negative, ones) x option assignments; every fourth CLI/script case and every third web UI also gets -base/-diff_base profiles (same, same stacks with another value pattern, subset, other profile with the same types, reordered/renamed types, unrelated) and the boolean/choice/sample_index option grid (mean, normalize, relative_percentages, call_tree, drop_negative, noinlines, showcolumns, trim, granularity, sort, each sample type) x option assignments (every 8th case fetches its profile from an http URL served by the harness, with faults on the path that saves the local copy: unusable PPROF_TMPDIR/HOME/TMPDIR, file names from profile strings with separators, NUL, over-long) x interactive scripts (grammar + noise + mutation operators over valid lines: case changes incl. unicode case variants of command/option names, digit abbreviations, separator noise, redirections and pipes with odd targets, prefixes/suffixes/concatenations of command names, mixed-case help) x URL query strings; failing input = panic trace, recovered panic, hang, abnormal exit, or a session/server that stops answering. " +
+		"Campaign (real pprof binary, one process per case; web handlers through the HTTPServer hook): first a deterministic grid of every output command x every option that changes graph construction or trimming (alone and with call_tree) x two trimming settings on a profile with several calling contexts per function, every source-spec form (plain, binary + profile, -buildid, -symbolize modes, -base/-diff_base, -add_comment, -tools, -source_path, two sources, http source) x degenerate but valid profiles (no samples / locations / mappings / functions, locations without mappings, mappings without locations, a sample without locations, idle process, empty strings, one sample type) x {-top, -raw, interactive}; every name-like profile string (function/system name, file names, label keys and values, sample type/unit/comment) x separator adversaries as prefix, suffix and whole name (CLI and every web endpoint); and every string-valued option x values whose byte and rune lengths straddle the size limits (long ASCII, 2-/3-/4-byte characters, combining marks, invalid UTF-8); then valid profiles with odd strings/ids/addresses/line numbers/0-1-2-character build ids/labels/units and per-column value patterns (one column zero, all zero, only one column non-zero, cancelling +v/-v, MinInt64/MaxInt64, negative, ones) x option assignments; every fourth CLI/script case and every third web UI also gets -base/-diff_base profiles (same, same stacks with another value pattern, subset, other profile with the same types, reordered/renamed types, unrelated) and the boolean/choice/sample_index option grid (mean, normalize, relative_percentages, call_tree, drop_negative, noinlines, showcolumns, trim, granularity, sort, each sample type) x option assignments (every 8th case fetches its profile from an http URL served by the harness, with faults on the path that saves the local copy: unusable PPROF_TMPDIR/HOME/TMPDIR, file names from profile strings with separators, NUL, over-long) x interactive scripts (grammar + noise + mutation operators over valid lines: case changes incl. unicode case variants of command/option names, digit abbreviations, separator noise, redirections and pipes with odd targets, prefixes/suffixes/concatenations of command names, mixed-case help) x URL query strings; failing input = panic trace, recovered panic, hang, abnormal exit, or a session/server that stops answering. " +
 		"Non-trivial: tagfilter values containing a digit; sessions with at least one assignment or report line; locate cases with a build id; CLI cases that got past flag parsing and profile loading; scripts whose session started; web requests answered 200/400."
 	e := c09Setup()
 	if f := flag.Lookup("replay"); c.Replay == "" || (f != nil && f.Value.String() != "") {
@@ -1143,7 +1151,7 @@ func runC09(c *Ctx) {
 	// ---- campaign cases for the real binary: generated by one feeder goroutine (sole user of rCamp,
 	// so the stream is deterministic), executed by a pool of workers while the in-process parts run;
 	// only the verdicts (and the failing cases) are kept
-	nCLI, nScript := 4000*scale, 1800*scale
+	nCLI, nScript := 3000*scale, 1400*scale
 	if !want("cli") {
 		nCLI = 0
 	}
